@@ -4,7 +4,7 @@ import Mp4ff.Lemmas.LayoutThms
 /-!
 # C01 — decode then encode is lossless outside reserved fields, and a fixed point
 Property theorems (proofs in `Mp4ff/Lemmas/LayoutThms.lean`).  The generic theorems hold for EVERY layout term
-and every byte string; the 37 box layouts of `Model/Boxes.lean` are instances, tied to the Go code by the
+and every byte string; the 64 box layouts of `Model/Boxes.lean` are instances, tied to the Go code by the
 `box.rt` correspondence.
 -/
 namespace Mp4ff.Boxes.C01
